@@ -601,10 +601,22 @@ impl ValueType {
     ///
     /// Function results may not return a type containing a borrow.
     pub fn contains_borrow(&self, types: &Types) -> bool {
+        self.contains_borrow_in(types, &mut Default::default())
+    }
+
+    /// `visited` holds the defined types already found to be free of borrows, so that a
+    /// type shared by several fields (a DAG) is only walked once.
+    fn contains_borrow_in(
+        &self,
+        types: &Types,
+        visited: &mut std::collections::HashSet<DefinedTypeId>,
+    ) -> bool {
         match self {
             ValueType::Primitive(_) | ValueType::Own(_) => false,
             ValueType::Borrow(_) => true,
-            ValueType::Defined(id) => types[*id].contains_borrow(types),
+            ValueType::Defined(id) => {
+                visited.insert(*id) && types[*id].contains_borrow_in(types, visited)
+            }
         }
     }
 
@@ -689,24 +701,42 @@ pub enum DefinedType {
 impl DefinedType {
     /// Determines if the defined type recursively contains a borrow.
     pub fn contains_borrow(&self, types: &Types) -> bool {
+        self.contains_borrow_in(types, &mut Default::default())
+    }
+
+    fn contains_borrow_in(
+        &self,
+        types: &Types,
+        visited: &mut std::collections::HashSet<DefinedTypeId>,
+    ) -> bool {
         match self {
-            Self::Tuple(tys) => tys.iter().any(|ty| ty.contains_borrow(types)),
-            Self::List(ty) | Self::FixedSizeList(ty, _) => ty.contains_borrow(types),
-            Self::Option(ty) => ty.contains_borrow(types),
+            Self::Tuple(tys) => tys.iter().any(|ty| ty.contains_borrow_in(types, visited)),
+            Self::List(ty) | Self::FixedSizeList(ty, _) => ty.contains_borrow_in(types, visited),
+            Self::Option(ty) => ty.contains_borrow_in(types, visited),
             Self::Result { ok, err } => {
-                ok.map(|ty| ty.contains_borrow(types)).unwrap_or(false)
-                    || err.map(|ty| ty.contains_borrow(types)).unwrap_or(false)
+                ok.map(|ty| ty.contains_borrow_in(types, visited))
+                    .unwrap_or(false)
+                    || err
+                        .map(|ty| ty.contains_borrow_in(types, visited))
+                        .unwrap_or(false)
             }
-            Self::Variant(v) => v
-                .cases
-                .values()
-                .any(|ty| ty.map(|ty| ty.contains_borrow(types)).unwrap_or(false)),
-            Self::Record(r) => r.fields.iter().any(|(_, ty)| ty.contains_borrow(types)),
+            Self::Variant(v) => v.cases.values().any(|ty| {
+                ty.map(|ty| ty.contains_borrow_in(types, visited))
+                    .unwrap_or(false)
+            }),
+            Self::Record(r) => r
+                .fields
+                .iter()
+                .any(|(_, ty)| ty.contains_borrow_in(types, visited)),
             Self::Flags(_) => false,
             Self::Enum(_) => false,
-            Self::Alias(ty) => ty.contains_borrow(types),
-            Self::Stream(ty) => ty.map(|ty| ty.contains_borrow(types)).unwrap_or(false),
-            Self::Future(ty) => ty.map(|ty| ty.contains_borrow(types)).unwrap_or(false),
+            Self::Alias(ty) => ty.contains_borrow_in(types, visited),
+            Self::Stream(ty) => ty
+                .map(|ty| ty.contains_borrow_in(types, visited))
+                .unwrap_or(false),
+            Self::Future(ty) => ty
+                .map(|ty| ty.contains_borrow_in(types, visited))
+                .unwrap_or(false),
         }
     }
 
